@@ -19,6 +19,7 @@ mod c15;
 mod c16;
 mod c17;
 mod c18;
+mod c18lock;
 mod c16conf;
 mod c19;
 mod c20;
@@ -81,14 +82,39 @@ fn main() {
             ("C16", "one") => c16::worker_one(arg),
             ("C16", _) => c16::worker(fam, start, end, step, arg),
             ("C04", "preempt") => preempt_family::worker("C04", start, end, step, arg),
+            ("C02", "preempt") => preempt_family::worker("C02", start, end, step, arg),
             ("C02", _) | ("C04", _) => c02::worker(fam, start, end, step, arg),
             ("C18", _) => c18::worker(fam, start, end, step, arg),
+            ("C11", "preempt") => preempt_family::worker("C11", start, end, step, arg),
             ("C11", _) => c11::worker(fam, start, end, step, arg),
             ("C01", _) => c01::worker(fam, start, end, step, arg),
             ("C05", _) => c05::worker(fam, start, end, step, arg),
             ("C10", _) => c10::worker(fam, start, end, step, arg),
             _ => panic!("unknown worker"),
         }
+        return;
+    }
+    if args[1] == "scen" {
+        // vcheck scen '<kind json>' ['<point json>']: run one scenario, print everything (debugging aid)
+        common::quiet_panics();
+        presched::install_handler();
+        let kind: scen::Kind = serde_json::from_str(&args[2]).expect("kind");
+        if args.len() > 3 && args[3] == "all" {
+            let rec = scen::run(&kind, None);
+            println!("recording: ranges {:?} violations {:?} notes {:?}", rec.ranges, rec.violations, rec.notes);
+            for p in scen::points(&kind, &rec.ranges) {
+                let r = scen::run(&kind, Some(&p));
+                println!("{:?}: outcome {:?} violations {:?} notes {:?}", p, r.outcome, r.violations, r.notes);
+            }
+            return;
+        }
+        let point: Option<scen::Point> = args.get(3).map(|s| serde_json::from_str(s).expect("point"));
+        let r = scen::run(&kind, point.as_ref());
+        println!("ranges {:?}\noutcome {:?}\nviolations {:?}\nnotes {:?}", r.ranges, r.outcome, r.violations, r.notes);
+        return;
+    }
+    if args[1] == "lock-child" {
+        c18lock::child(&args[2]);
         return;
     }
     if args[1] == "conf-child" {
